@@ -175,9 +175,9 @@ pub fn run(ctx: &Ctx) -> Report {
         "model formulas are those of the property statement; the original-line rule is cross-checked mapper vs cache".into(),
         "cache buffers are 8-byte aligned".into(),
     ];
-    let n = ctx.cases(6000, 60_000);
+    let n = ctx.cases(6000, 180_000);
     rep.run_stage("ast", || map_case(&cfg()), n, check_case);
-    rep.run_stage("tall", || tall_case(&cfg()), ctx.cases(60, 800), check_case);
+    rep.run_stage("tall", || tall_case(&cfg()), ctx.cases(60, 2_400), check_case);
     let corpus = corpus_ast_cases(10, 40, 6, ctx);
     rep.run_enum("corpus", &corpus, check_corpus);
     rep
